@@ -46,7 +46,7 @@ STEP_PARAMS = [{"n": n, "idx": i, "declared": d} for n in (2, 4, 6, 8, 10, 12, 1
                      (DEX, "SparseSwitch.__init__"), (DEX, "SparseSwitch.get_length"), (DEX, "SparseSwitch.get_raw"),
                      (DEX, "FillArrayData.__init__"), (DEX, "FillArrayData.get_length"), (DEX, "FillArrayData.get_raw"),
                      (DEX, "DALVIK_OPCODES_PAYLOAD", "global")],
-      params=STEP_PARAMS, samples=150, max_paths=40000, timeout_ms=60000)
+      params=STEP_PARAMS, samples=150, max_paths=40000, timeout_ms=60000, terminates=True)
 def sweep_step(U, n, idx, declared):
     m = U.mod(DEX)
     if U.mode == "sym":
@@ -142,7 +142,7 @@ VALID_OPS = [o for o in range(256) if F.FMT[o] != "unused"]
 
 @unit("C02", covers=[(DEX, "LinearSweepAlgorithm.get_instructions"), (DEX, "DCode.get_instructions")], level="bounded", samples=400,
       note="random sequences of 1..12 valid instructions over all used opcodes (incl. 0xfe/0xff with any register byte), random "
-           "operands, followed by aligned switch/fill-array payloads with random sizes; offsets/lengths/raw bytes compared")
+           "operands, followed by aligned switch/fill-array payloads with random sizes; offsets/lengths/raw bytes compared", terminates=True)
 def well_assembled(U):
     m = U.mod(DEX)
     seed = U.int("seed", 0, 1 << 30)
